@@ -17,6 +17,7 @@ import (
 	"sort"
 	"strings"
 	"sync"
+	"time"
 
 	"verifharness/internal/clirun"
 	"verifharness/internal/out"
@@ -141,8 +142,16 @@ func fileID(name string) int {
 func runLint(dirPath string, latest int, work string) (r result) {
 	os.MkdirAll(work, 0o755)
 	defer os.RemoveAll(work)
-	res := clirun.Run(work, nil, "migrate", "lint", "--dir", "file://"+dirPath,
-		"--dev-url", "sqlite://dev?mode=memory", "--latest", fmt.Sprint(latest), "--format", "{{ json . }}")
+	var res clirun.Result
+	for attempt := 0; attempt < 4; attempt++ {
+		res = clirun.Run(work, nil, "migrate", "lint", "--dir", "file://"+dirPath,
+			"--dev-url", "sqlite://dev?mode=memory", "--latest", fmt.Sprint(latest), "--format", "{{ json . }}")
+		if res.Exit != -1 {
+			break
+		}
+		// the process could not be started or was killed (machine overload): not an observation of atlas
+		time.Sleep(time.Duration(200*(attempt+1)) * time.Millisecond)
+	}
 	r.exit = res.Exit
 	var rep jsonReport
 	if err := json.Unmarshal([]byte(res.Stdout), &rep); err != nil {
